@@ -154,6 +154,10 @@ class Extractor:
 
     def stmt(self, st):
         if isinstance(st, ast.Expr):
+            v = st.value
+            if isinstance(v, ast.Call) and isinstance(v.func, ast.Attribute) and v.func.attr in ("append", "extend") and isinstance(v.func.value, ast.Name) \
+                    and isinstance(self.env.get(v.func.value.id), list):
+                self.expr(v)  # building an argument list
             return
         if isinstance(st, ast.Assign):
             if len(st.targets) == 1 and isinstance(st.targets[0], ast.Subscript):
@@ -237,6 +241,19 @@ class Extractor:
     def loop(self, st):
         it = st.iter
         if not (isinstance(it, ast.Call) and dotted(it.func) == "range" and isinstance(st.target, ast.Name) and not st.orelse):
+            # a loop over a literal / already evaluated python sequence (of shells, names, small integers): unrolled
+            seq = None
+            if not st.orelse:
+                try:
+                    seq = self.expr(it)
+                except AnalysisError:
+                    seq = None
+            if isinstance(seq, (tuple, list)):
+                for item in list(seq):
+                    self.bind(st.target, item, ast.Assign(targets=[st.target], value=ast.Constant(value=None)))
+                    for s in st.body:
+                        self.stmt(s)
+                return
             self.err("loop that is not `for v in range(...)`", st)
         args = [self.as_int(self.expr(a), st) for a in it.args]
         lo, hi = (sp.Integer(0), args[0]) if len(args) == 1 else (args[0], args[1])
@@ -747,9 +764,30 @@ class Extractor:
     def call(self, e):
         d = dotted(e.func)
         short = d.split(".")[-1] if d else None
+        if d == "zip" and e.args and not e.keywords:
+            seqs = [self.expr(a) for a in e.args]
+            if all(isinstance(x, (tuple, list)) for x in seqs):
+                return [tuple(t) for t in zip(*seqs)]
+        if d in ("tuple", "list") and len(e.args) == 1:
+            v = self.expr(e.args[0])
+            if isinstance(v, (tuple, list)):
+                return tuple(v) if d == "tuple" else list(v)
+        if d == "enumerate" and len(e.args) == 1:
+            v = self.expr(e.args[0])
+            if isinstance(v, (tuple, list)):
+                return [(SV(sp.Integer(k), []), x) for k, x in enumerate(v)]
         # method calls on values
         if isinstance(e.func, ast.Attribute) and not (d and d.split(".")[0] in ("np", "numpy")):
             recv = self.expr(e.func.value)
+            if isinstance(recv, list) and e.func.attr in ("append", "extend") and len(e.args) == 1:
+                v = self.expr(e.args[0])
+                if e.func.attr == "append":
+                    recv.append(v)
+                else:
+                    if not isinstance(v, (tuple, list)):
+                        self.err("list.extend with a non-sequence", e)
+                    recv.extend(v)
+                return None
             if isinstance(recv, SV):
                 return self.method(recv, e.func.attr, e)
             if callable(recv):
@@ -776,7 +814,15 @@ class Extractor:
 
     def call_gbasis(self, g, e):
         params = g.params
-        args = [self.expr(a) for a in e.args]
+        args = []
+        for a in e.args:
+            if isinstance(a, ast.Starred):
+                v = self.expr(a.value)
+                if not isinstance(v, (tuple, list)):
+                    self.err("*args of a non-sequence", e)
+                args.extend(v)
+            else:
+                args.append(self.expr(a))
         env = {}
         for nm, v in zip(params, args):
             env[nm] = v
@@ -892,6 +938,18 @@ class Extractor:
             return self.reshape(recv, args, e)
         if attr in ("copy", "astype"):
             return recv
+        if attr in ("transpose", "swapaxes", "prod", "max", "min"):
+            # x.m(args) == np.m(x, args): re-dispatch through the function form
+            if attr == "transpose":
+                a = e.args
+                perm = a[0] if len(a) == 1 and isinstance(a[0], (ast.Tuple, ast.List)) else ast.Tuple(elts=list(a), ctx=ast.Load())
+                newargs = [e.func.value, perm]
+            else:
+                newargs = [e.func.value] + list(e.args)
+            fake = ast.Call(func=ast.Attribute(value=ast.Name(id="np", ctx=ast.Load()), attr=attr, ctx=ast.Load()), args=newargs, keywords=e.keywords)
+            ast.copy_location(fake, e)
+            ast.fix_missing_locations(fake)
+            return self.numpy(attr, fake)
         self.err(f"method .{attr}()", e)
 
     def numpy(self, short, e):
